@@ -232,20 +232,31 @@ def lattice_record(m, Y, centers, fitted, a, d, cidx, gen):
 
 
 def predict_record(m, train, k, Y, j, ints):
+    """every fourth linf record fits and predicts in different types (the callable metric takes any pair): an integer
+    model asked about frames on the half-integer lattice (recorded in units of 1/2: the metric is homogeneous), and a
+    uint8 model asked about int64 frames shifted below zero and beyond 255"""
     from enspara.cluster.kcenters import KCenters
     dts = _dtypes(m, ints)
     dt = dts[j % len(dts)]
+    ydt, unit, shift = dt, 1, 0
+    sel = (j ^ (j >> 3) ^ (j >> 7) ^ (j >> 11)) % 8     # j may be a multiple of anything
+    if m == "linf" and sel in (1, 5):
+        dt, ydt, unit = ints[0], "float64", 2
+    elif m == "linf" and sel in (3, 7) and train and 0 <= min(map(min, train)) and max(map(max, train)) <= 255:
+        dt, ydt, shift = "uint8", "int64", (-3 if sel == 3 else 250)
     gen = {"call": "KCenters.fit.predict", "metric": m, "train": train, "k": k, "Y": Y, "dtype": dt, "j": j,
-           "ints": list(ints)}
+           "ints": list(ints), "predict_dtype": ydt, "unit": "1/%d" % unit, "shift": shift}
     try:
         est = KCenters(_kc_metric(m, j), n_clusters=k).fit(np.array(train, dtype=dt))
         fitted = [np.array(x).copy() for x in est.centers_]
-        Yarr = np.array(Y, dtype=dt)
+        Yarr = (np.array(Y, dtype="int64") + shift).astype(ydt) / unit if unit != 1 else \
+            (np.array(Y, dtype="int64") + shift).astype(ydt)
         Y0 = Yarr.copy()
         pred = est.predict(Yarr)
-        rec = lattice_record(m, Y, pred.centers, fitted, pred.assignments, pred.distances,
-                             pred.center_indices, gen)
-        after, _ = proj_points(est.centers_)
+        rec = lattice_record(m, (Y0 * unit).tolist(), [np.asarray(x, dtype=float) * unit for x in pred.centers],
+                             [np.asarray(x, dtype=float) * unit for x in fitted], pred.assignments,
+                             np.asarray(pred.distances, dtype=float) * unit, pred.center_indices, gen)
+        after, _ = proj_points([np.asarray(x, dtype=float) * unit for x in est.centers_])
         if not np.array_equal(Yarr, Y0) or after != rec["fitted"]:
             rec["_modified"] = True
         return rec
@@ -1052,6 +1063,8 @@ def run(ctx):
     # ---- (B) traces judged by TLC
     judge_batch_traces(ctx, report, d, batch_recs, "compute_batches")
     ctx.notes["predict_traces"] = len(pred_recs)
+    ctx.notes["predict_traces_mixed_types"] = sum(1 for r in pred_recs
+                                                  if r.get("_gen", {}).get("predict_dtype") != r.get("_gen", {}).get("dtype"))
 
     if thorough:
         n_rand = 6000
